@@ -1,6 +1,6 @@
 SPECIFICATION SpecB
 CONSTANTS
-    Chan = {0, 1}
+    Chan = {0, 1, 2}
     Peer = {1, 2}
     MaxOps = 14
     Impl = "Design"
